@@ -199,14 +199,12 @@ def fetchCorner {α : Type} (bl : Blocks α) (b : Pt) (x y z : Int) (i : Nat) : 
   let zB := if z = last then b.2.2 + 1 else b.2.2
   let sel := ptOfRow (cubeDataBlockPositions.getD i [])
   let pos : Pt := (if sel.1 = 1 then xB else b.1, if sel.2.1 = 1 then yB else b.2.1, if sel.2.2 = 1 then zB else b.2.2)
-  match bl pos with
-  | none => none
-  | some d =>
+  (bl pos).map fun d =>
     let inc := cornerOff i
     let nx := if pos.1 ≠ b.1 then neighbourIndex.getD 0 0 else x + inc.1
     let ny := if pos.2.1 ≠ b.2.1 then neighbourIndex.getD 1 0 else y + inc.2.1
     let nz := if pos.2.2 ≠ b.2.2 then neighbourIndex.getD 2 0 else z + inc.2.2
-    some (d (bindex nx ny nz))
+    d (bindex nx ny nz)
 
 /-- all eight corners, or `none` when the code `continue`s (some needed block is missing) -/
 def fetchCell {α : Type} (bl : Blocks α) (b : Pt) (x y z : Int) : Option (List α) :=
